@@ -26,6 +26,7 @@ HeaderOK9(img, kind) ==
 ChromTreeOK9(ct, usedChroms, sizes, sortedInput) ==      \* ct.chroms: <<nameIdx, id, size, keyLen>>
   /\ ct.magic = "78CA8C91" /\ ct.valSize = 8 /\ ct.blockSize >= 1
   /\ ct.itemCount = Len(ct.chroms)
+  /\ ("maxNodeItems" \in DOMAIN ct => ct.maxNodeItems <= ct.blockSize)        \* no node holds more items than the header's block size
   /\ \A i \in 1..Len(ct.chroms) : ct.chroms[i][4] <= ct.keySize /\ ct.chroms[i][1] > 0
   /\ \A i, j \in 1..Len(ct.chroms) : i # j => ct.chroms[i][2] # ct.chroms[j][2] /\ ct.chroms[i][1] # ct.chroms[j][1]
   /\ {c[1] : c \in Range(ct.chroms)} = Range(usedChroms)
